@@ -619,7 +619,11 @@ func (e *Exec) callByContract(st *State, c *FuncContract, callee *ssa.Function, 
 		e.sc.assert(imp(st.pc, fmt.Sprintf("(>= %s %s)", nt, tp)))
 		st.mem["top"] = nt
 	} else {
+		if pt, ok := c.Flags["preserves_types"]; ok {
+			e.keepTypes = strings.Fields(pt)
+		}
 		e.havocForCall(st, callee, cc, args)
+		e.keepTypes = nil
 	}
 	// results
 	res := e.freshVal(st, "res."+sanitize(name), resT)
@@ -1006,7 +1010,17 @@ func (e *Exec) cutLoopHead(fn *ssa.Function, fc *FuncContract, l *loopInfo, st *
 			}
 		}
 	}
-	e.havocKeysSorted(st, keys, all)
+	written := map[*ssa.FreeVar]bool{}
+	for b := range l.body {
+		for _, ins := range b.Instrs {
+			if sto, ok := ins.(*ssa.Store); ok {
+				if fv, ok := sto.Addr.(*ssa.FreeVar); ok {
+					written[fv] = true
+				}
+			}
+		}
+	}
+	e.havocKeysSorted(st, keys, all, written)
 	// call counters are non-negative and bounded (assumption: fewer than 2^40 calls per invocation)
 	for name, t := range e.ghostTypes {
 		if e.rawGhost[name] {
@@ -1122,8 +1136,8 @@ func (e *Exec) checkLoopBack(fn *ssa.Function, fc *FuncContract, l *loopInfo, st
 	}
 }
 
-func (e *Exec) havocKeysSorted(st *State, keys map[string]string, all bool) {
-	e.havocKeys(st, keys, all)
+func (e *Exec) havocKeysSorted(st *State, keys map[string]string, all bool, written map[*ssa.FreeVar]bool) {
+	e.havocKeysW(st, keys, all, written)
 }
 
 type loopHeadMem struct {
